@@ -57,13 +57,16 @@ def to_opb_file(formula, fileorname=None,
     if export_header:
         # remove non ascii text
         for field in formula.header:
-            tmp = "* {}: {}\n".format(field, formula.header[field])
+            tmp = "{}: {}".format(field, formula.header[field])
             tmp = tmp.encode('ascii', errors='replace').decode('ascii')
-            output.write(tmp)
+            # a value spanning several lines stays inside the comments
+            for line in tmp.splitlines():
+                output.write("* " + line + "\n")
         output.write("*\n")
 
     if export_varnames:
         for varid, label in enumerate(formula.all_variable_labels(), start=1):
+            label = " ".join(str(label).splitlines())
             output.write("* varname x{0} {1}\n".format(varid, label))
         output.write("*\n")
 
